@@ -1,4 +1,5 @@
 import PharmpyProofs.C15.ThreadInv
+import PharmpyProofs.C15.ProcInv
 /-
   C15 — Path locks give reader–writer exclusion without deadlock in every
   schedule.  Property theorems (thread level).  All statements quantify over
@@ -341,5 +342,129 @@ example : ∃ s, runEvs true {} [.exEnter 7 true false] = some s ∧ inExBody s 
     step true s (.shEnter 8 true false) = none := ⟨_, rfl, by decide⟩
 example : ∃ s, runEvs true {} [.shEnter 1 true false, .shEnter 2 true false, .shEnter 3 false true]
     = some s ∧ inBody s 1 = true ∧ inBody s 2 = true ∧ inBody s 3 = true := ⟨_, rfl, by decide⟩
+
+
+/-! ## Process level: `ShareableProcessLock` of every process + the kernel's record-lock table
+
+  Any number of processes and threads; every finite sequence of entry / `lockf`-return /
+  exit transitions. -/
+
+open KS
+
+def PReachable (s : KS) : Prop := ∃ evs, prun {} evs = some s
+
+theorem preachable_kinv {s : KS} (h : PReachable s) : KInv s := by
+  obtain ⟨evs, h⟩ := h
+  exact prun_inv evs kinv_init h
+
+theorem pIn_held {s : KS} {p : Pid} {t : Nat} (h : pIn s p t = true) : isHeld (s.procs p) = true := by
+  simp only [pIn, Bool.or_eq_true] at h
+  apply (isHeld_iff _).mpr
+  rcases h with h | h
+  · left; intro hn; simp [hn] at h
+  · right; intro hn; simp [hn] at h
+
+/-- **Cross-process exclusion.** While a thread of process `p` holds the file exclusively,
+    no thread of any other process holds it in any mode. -/
+theorem process_exclusion {s : KS} (h : PReachable s) (p q : Pid) (t t' : Nat)
+    (hex : pInEx s p t = true) (hne : q ≠ p) : pIn s q t' = false := by
+  have hi := preachable_kinv h
+  have hpe : (s.procs p).exclBy ≠ [] := by
+    intro hn; simp [pInEx, hn] at hex
+  have hk := hi.exEntry p hpe
+  by_cases hq : pIn s q t' = true
+  · exfalso
+    have hheld := pIn_held hq
+    rcases (isHeld_iff _).mp hheld with h1 | h1
+    · obtain ⟨m, hm⟩ := hi.shEntry q h1
+      exact hne (hi.exOnly p hk (q, m) hm)
+    · exact hne (hi.exOnly p hk (q, true) (hi.exEntry q h1))
+  · simpa using hq
+
+/-- **Kernel agreement / no foreign release.** Whatever other threads and processes do, a
+    thread inside a body has its process holding the file in the kernel table, exclusively
+    if the thread holds exclusively; the entry of a process is unique. -/
+theorem kernel_agreement {s : KS} (h : PReachable s) (p : Pid) (t : Nat) (hin : pIn s p t = true) :
+    (∃ m, (p, m) ∈ s.kernel ∧ (pInEx s p t = true → m = true)) ∧
+    (s.kernel.map (·.1)).Nodup := by
+  have hi := preachable_kinv h
+  refine ⟨?_, hi.nodup⟩
+  by_cases hex : pInEx s p t = true
+  · have hpe : (s.procs p).exclBy ≠ [] := by
+      intro hn; simp [pInEx, hn] at hex
+    exact ⟨true, hi.exEntry p hpe, fun _ => rfl⟩
+  · have hsh : (s.procs p).sharedBy ≠ [] := by
+      intro hn
+      simp only [pIn, hn, Bool.or_eq_true] at hin
+      rcases hin with h1 | h1
+      · simp at h1
+      · exact hex h1
+    obtain ⟨m, hm⟩ := hi.shEntry p hsh
+    exact ⟨m, hm, fun h' => absurd h' hex⟩
+
+/-- **No leaked kernel lock.** When no thread of any process holds the file, the kernel
+    table is empty. -/
+theorem no_kernel_leak {s : KS} (h : PReachable s) (hq : ∀ p, isHeld (s.procs p) = false) :
+    s.kernel = [] := by
+  have hi := preachable_kinv h
+  cases hk : s.kernel with
+  | nil => rfl
+  | cons e es =>
+    exfalso
+    have := hi.noLeak e.1 e.2 (by rw [hk]; simp)
+    rw [hq e.1] at this; cases this
+
+/-- **A pending `lockf` returns once no other process holds the file**: the blocked entry
+    (or upgrade, or downgrade) is granted as soon as all conflicting holders have released. -/
+theorem lockf_granted_when_free {s : KS} (h : PReachable s) (p : Pid) (pd : Pend)
+    (hp : (s.procs p).pend = some pd) (hfree : ∀ q, q ≠ p → isHeld (s.procs q) = false) :
+    ∃ s' o, s.pLockf p pd.tid = some (s', o) ∧ o ≠ .raisedWouldBlock := by
+  have hi := preachable_kinv h
+  have hg : ∀ ex, s.grantable p ex = true := by
+    intro ex
+    simp only [grantable, List.all_eq_true]
+    intro e he
+    have hep : e.1 = p := by
+      by_cases hep : e.1 = p
+      · exact hep
+      · have := hi.noLeak e.1 e.2 he
+        rw [hfree e.1 hep] at this; cases this
+    simp [hep]
+  simp only [pLockf, hp, bne_self_eq_false, Bool.false_eq_true, if_false, hg, if_true]
+  split
+  · exact ⟨_, _, rfl, by simp⟩
+  · exact ⟨_, _, rfl, by simp⟩
+
+/-! ## `path_lock` = thread level (outside) + process level (inside) -/
+
+/-- **Reader–writer exclusion of `path_lock`, every schedule.**  If a thread `t` of process
+    `p` is in an exclusive body (it holds both levels exclusively), no other thread of any
+    process is in a body for that path: same process by the thread level, other processes by
+    the kernel table. -/
+theorem path_exclusion (tl : Pid → TL) (ks : KS)
+    (h1 : ∀ p, Reachable (tl p)) (h2 : PReachable ks)
+    (p q : Pid) (t t' : Nat)
+    (hex1 : inExBody (tl p) t = true) (hex2 : pInEx ks p t = true)
+    (hne : q ≠ p ∨ t' ≠ t) :
+    ¬ (inBody (tl q) t' = true ∧ pIn ks q t' = true) := by
+  rintro ⟨hb1, hb2⟩
+  by_cases hq : q = p
+  · subst hq
+    have ht : t' ≠ t := by
+      rcases hne with h | h
+      · exact absurd rfl h
+      · exact h
+    have := thread_exclusion (h1 q) t t' hex1 ht
+    rw [this] at hb1; cases hb1
+  · have := process_exclusion h2 p q t t' hex2 hq
+    rw [this] at hb2; cases hb2
+
+-- non-vacuity: two processes share; an upgrade blocks until the other process leaves
+example : ∃ s, prun {} [.enter 0 1 true true true, .lockf 0 1, .enter 1 2 true true true, .lockf 1 2,
+    .enter 0 1 false true true] = some s ∧ pIn s 0 1 = true ∧ pIn s 1 2 = true ∧
+    pstep s (.lockf 0 1) = none := ⟨_, rfl, by decide⟩
+example : ∃ s, prun {} [.enter 0 1 true true true, .lockf 0 1, .enter 1 2 true true true, .lockf 1 2,
+    .enter 0 1 false true true, .exit 1 2 true, .lockf 0 1] = some s ∧ pInEx s 0 1 = true ∧
+    s.kernel = [(0, true)] := ⟨_, rfl, by decide⟩
 
 end Pharmpy.C15
